@@ -213,8 +213,8 @@ func (w *Walk) block(b *ssa.BasicBlock, from int, env map[*ssa.Phi]Val, raw map[
 			ro := &RetOutcome{Ret: t}
 			for _, r := range t.Results {
 				ro.Vals = append(ro.Vals, w.eval(r, env))
-				rv := r
-				if p, ok := r.(*ssa.Phi); ok {
+				rv := unspill(r)
+				if p, ok := rv.(*ssa.Phi); ok {
 					if x, ok := raw[p]; ok {
 						rv = x
 					}
@@ -267,6 +267,11 @@ func (w *Walk) evalD(v ssa.Value, env map[*ssa.Phi]Val, d int) Val {
 			r := w.evalD(x.X, env, d+1)
 			if r.Kind == 1 {
 				return vBool(!r.B)
+			}
+		}
+		if x.Op == token.MUL {
+			if u := unspill(x); u != ssa.Value(x) {
+				return w.evalD(u, env, d+1)
 			}
 		}
 		return unknown
